@@ -4,12 +4,14 @@ import json, os, sys
 VERIF = os.path.dirname(os.path.dirname(os.path.abspath(__file__)))
 sys.path.insert(0, os.path.join(VERIF, "lib"))
 from claims import CLAIMS, NOT_APPLICABLE
+import props
+REGISTERED = set(props.PROPS)
 
 props = [json.loads(l) for l in open(os.path.join(VERIF, "properties.jsonl"))]
 ids = [p["id"] for p in props]
 checks = []
 for pid in ids:
-    if pid not in CLAIMS:
+    if pid not in CLAIMS or pid not in REGISTERED:
         continue
     c = CLAIMS[pid]
     checks.append({
@@ -23,7 +25,7 @@ for pid in ids:
         "level_note": c["note"],
         "technique": c["technique"],
     })
-na = [{"property_id": pid, "reason": NOT_APPLICABLE.get(pid, "check not built yet (work in progress); the design for it is in DESIGN.md section 7")} for pid in ids if pid not in CLAIMS]
+na = [{"property_id": pid, "reason": NOT_APPLICABLE.get(pid, "check not built yet (work in progress); the design for it is in DESIGN.md section 7")} for pid in ids if pid not in CLAIMS or pid not in REGISTERED]
 m = {
     "version": 1,
     "setup_cmd": "cd /verif/engine && GOFLAGS=-mod=mod GOPROXY=off GOSUMDB=off GOTOOLCHAIN=local go build -o /verif/bin/symgo .",
